@@ -16,7 +16,7 @@
 From Coq Require Import NArith ZArith List Bool Lia.
 From KdV Require Import Fmt.Codec Fmt.CodecProofs Fmt.Rle Fmt.RleProofs
      Fmt.PfnModel Fmt.BitmapSpec Fmt.ImageSpec Fmt.DiskdumpModel Fmt.DiskdumpSpec Fmt.DiskdumpProofs
-     Fmt.S390Model Fmt.S390Spec Fmt.S390Proofs Fmt.LkcdModel Fmt.LkcdSpec Fmt.LkcdProofs Fmt.PfnBridge Fmt.LkcdIndexModel Fmt.LkcdIndexProofs Fmt.ElfGeomModel Fmt.ElfGeomSpec Fmt.ElfGeomProofs Fmt.ElfGeomRoundtrip Fmt.ReadProofs
+     Fmt.S390Model Fmt.S390Spec Fmt.S390Proofs Fmt.LkcdModel Fmt.LkcdSpec Fmt.LkcdProofs Fmt.PfnBridge Fmt.ElfMaxPfn Fmt.LkcdIndexModel Fmt.LkcdIndexProofs Fmt.ElfGeomModel Fmt.ElfGeomSpec Fmt.ElfGeomProofs Fmt.ElfGeomRoundtrip Fmt.ReadProofs
      Fmt.ElfModel Fmt.ElfSpec Fmt.ElfProofs Fmt.ElfRoundtrip Fmt.ElfOpenProofs
      Fmt.SadumpModel Fmt.SadumpSpec Fmt.SadumpProofs Fmt.SadumpOpenProofs Fmt.SadumpBridge.
 Import ListNotations.
@@ -252,6 +252,26 @@ Theorem C01_elf_max_pfn : forall l segs shift,
   elf_max_pfn (expected l segs) shift = spec_elf_max_pfn segs (2^shift).
 Proof. exact elf_max_pfn_full. Qed.
 Print Assumptions C01_elf_max_pfn.
+
+(** max_pfn is the maximum over *all* LOAD segments with a usable physical
+    address of the page frame behind the segment's end - for any state, i.e.
+    also when segments are nested or overlap (kernel text inside the direct
+    mapping: the segment that starts highest is then not the one that ends
+    highest); [seg_end_pfn] is C's expression, equal to the rounded-up quotient
+    when nothing wraps *)
+Theorem C01_elf_max_pfn_is_max_end : forall st shift,
+  (forall s, In s (es_sorted st) -> seg_end_pfn shift s <= elf_max_pfn st shift) /\
+  (es_sorted st = [] -> elf_max_pfn st shift = 0) /\
+  (elf_max_pfn st shift <> 0 ->
+   exists s, In s (es_sorted st) /\ elf_max_pfn st shift = seg_end_pfn shift s).
+Proof. exact elf_max_pfn_is_max_end. Qed.
+Print Assumptions C01_elf_max_pfn_is_max_end.
+
+Theorem C01_elf_seg_end_pfn : forall shift s,
+  ls_phys s + ls_memsz s + 2^shift <= 2^64 ->
+  seg_end_pfn shift s = (ls_phys s + ls_memsz s + 2^shift - 1) / 2^shift.
+Proof. exact seg_end_pfn_plain. Qed.
+Print Assumptions C01_elf_seg_end_pfn.
 
 (** Geometry.  [note_segs_hold]: the PT_NOTE segments of the dump hold ELF
     notes (gABI layout: sizes, type, name and descriptor padded to 4 bytes), in
